@@ -1,0 +1,109 @@
+//go:build verif
+
+package badger
+
+import (
+	"sync"
+	"sync/atomic"
+
+	"github.com/dgraph-io/badger/v4/table"
+)
+
+// Persistence-event log for the /verif "crash" engine. Every point at which badger changes
+// persistent state calls vevent(kind, path, a, b) right AFTER the operation completed (call
+// sites of the form `return f()` use `defer vevent(...)`). The log is in memory; an optional
+// callback runs at each event, under the log mutex, so that the harness can snapshot the
+// directory in exactly the state the event describes. Safe for concurrent callers.
+
+// Event kinds (the inserted call lines use the literals).
+const (
+	VevCreate     = 1  // file created and sized: a = size (z.OpenMmapFile returned NewFile / O_TRUNC open)
+	VevWrite      = 2  // bytes stored: a = offset (-1 = append with write(2)), b = length
+	VevZero       = 3  // zeroNextEntry: a = offset, b = length
+	VevSync       = 4  // msync / fsync of the file
+	VevTruncate   = 5  // ftruncate: a = new size
+	VevDelete     = 6  // z.MmapFile.Delete: munmap, ftruncate(0), close, unlink
+	VevRemove     = 7  // os.Remove
+	VevRenameFrom = 8  // os.Rename about to happen: path = old name
+	VevRename     = 9  // os.Rename done: path = new name
+	VevSyncDir    = 10 // fsync of the directory
+	VevClose      = 11 // z.MmapFile.Close(a): msync, munmap, ftruncate(a) when a >= 0, close
+	VevLock       = 12 // LOCK pid file written
+	VevMkdir      = 13 // directory created
+)
+
+var VerifEventNames = map[int]string{
+	VevCreate: "create", VevWrite: "write", VevZero: "zero", VevSync: "sync", VevTruncate: "truncate",
+	VevDelete: "delete", VevRemove: "remove", VevRenameFrom: "rename-from", VevRename: "rename",
+	VevSyncDir: "syncdir", VevClose: "close", VevLock: "lock", VevMkdir: "mkdir",
+}
+
+type VEvent struct {
+	Seq  int // 1-based position in the log
+	Kind int
+	Path string
+	A, B int64
+}
+
+var verifEv struct {
+	on  atomic.Bool
+	mu  sync.Mutex
+	log []VEvent
+	cb  func(VEvent)
+}
+
+func vevent(kind int, path string, a, b int64) {
+	if !verifEv.on.Load() {
+		return
+	}
+	verifEv.mu.Lock()
+	defer verifEv.mu.Unlock()
+	if !verifEv.on.Load() {
+		return
+	}
+	ev := VEvent{Seq: len(verifEv.log) + 1, Kind: kind, Path: path, A: a, B: b}
+	verifEv.log = append(verifEv.log, ev)
+	if verifEv.cb != nil {
+		verifEv.cb(ev)
+	}
+}
+
+func init() { table.VerifEventHook = vevent }
+
+// VerifEventsStart clears the log and starts recording; cb (may be nil) runs at every event
+// while the log mutex is held (it must not call into badger).
+func VerifEventsStart(cb func(VEvent)) {
+	verifEv.mu.Lock()
+	verifEv.log = nil
+	verifEv.cb = cb
+	verifEv.on.Store(true)
+	verifEv.mu.Unlock()
+}
+
+// VerifEventsStop stops recording and returns the log.
+func VerifEventsStop() []VEvent {
+	verifEv.mu.Lock()
+	defer verifEv.mu.Unlock()
+	verifEv.on.Store(false)
+	verifEv.cb = nil
+	out := verifEv.log
+	verifEv.log = nil
+	return out
+}
+
+// VerifEventCount is the number of events logged so far.
+func VerifEventCount() int {
+	verifEv.mu.Lock()
+	defer verifEv.mu.Unlock()
+	return len(verifEv.log)
+}
+
+// VerifEventsSince returns a copy of the events with Seq > n.
+func VerifEventsSince(n int) []VEvent {
+	verifEv.mu.Lock()
+	defer verifEv.mu.Unlock()
+	if n >= len(verifEv.log) {
+		return nil
+	}
+	return append([]VEvent(nil), verifEv.log[n:]...)
+}
